@@ -109,6 +109,13 @@ class Report:
                 self.errors.append(
                     'floor not met for rule %s: %d decided instances < %d '
                     'confirmed by reading (%s)' % (rule, have, minimum, desc))
+                und = [o for o in self.obls.values()
+                       if _rule_match(o.rule, rule) and o.status == 'unknown']
+                for o in sorted(und, key=lambda o: o.key())[:4]:
+                    self.errors.append(
+                        '  undecided %s:%s [%s] %s :: %s -- %s'
+                        % (o.file or '?', o.line, o.rule, o.where,
+                           (o.construct or '')[:120], (o.detail or '')[:200]))
 
         viols = [o for o in self.obls.values() if o.status == 'violation']
         viols.sort(key=lambda o: o.key())
@@ -214,6 +221,8 @@ class Report:
 
 
 def _rule_match(rule, pat):
+    if '|' in pat:
+        return any(_rule_match(rule, p) for p in pat.split('|'))
     if pat.endswith('*'):
         return rule.startswith(pat[:-1])
     return rule == pat
